@@ -12,7 +12,8 @@ Transcribed from `/repo`:
 * `pkg/obiseq/biosequence.go`             : `QualitiesString` (clamp 93 + output shift), `Qualities` (default 40);
 * Go `strings.TrimSpace` (documented behaviour, UTF-8 aware).
 
-goccy/go-json is *not* modelled: the header parser takes the library's answer as a parameter (`Lib`).
+The header parser takes the JSON library as a parameter (`Lib`, `JsonLib`); `Model/Json.lean` models goccy/go-json
+(`goJson : JsonLib JMems`) and the theorems of `Props/C02.lean` instantiate the parameter with it.
 -/
 namespace ObiVerif.Header
 
@@ -409,6 +410,30 @@ def readFasta {α : Type} (J : JsonLib α) (text : Bytes) : Option (List (Record
 def readFastq {α : Type} (J : JsonLib α) (shift : UInt8) (text : Bytes) : Option (List (Record α)) :=
   match parseFastq shift true text with
   | .ok rs => rs.mapM (readRec J)
+  | .error _ => none
+
+/-! ## `ParseGuessedFastSeqHeader` (fastseq_header.go) -/
+
+/-- `if strings.HasPrefix(sequence.Definition(), "{") { ParseFastSeqJsonHeader } else { ParseFastSeqOBIHeader }`;
+    the OBI-format parser is outside this property: parameter `obi` -/
+def parseGuessed {α : Type} (obi : Bytes → Option (Parsed α)) (empty : α) (lib : Lib α) (defn : Bytes) :
+    Option (Parsed α) :=
+  if defn.head? = some 123 then parseFastSeqJsonHeader empty lib defn else obi defn
+
+/-- `ParseGuessedFastSeqHeader` on a record delivered by a chunk parser -/
+def readRecG {α : Type} (J : JsonLib α) (obi : Bytes → Option (Parsed α)) (rc : Rec) : Option (Record α) :=
+  (parseGuessed obi J.empty (J.lib rc.defn) rc.defn).map (fun p => ⟨rc.id, rc.seq, rc.qual, p.ann, p.defn⟩)
+
+def readFastaG {α : Type} (J : JsonLib α) (obi : Bytes → Option (Parsed α)) (text : Bytes) :
+    Option (List (Record α)) :=
+  match parseFasta text with
+  | .ok rs => rs.mapM (readRecG J obi)
+  | .error _ => none
+
+def readFastqG {α : Type} (J : JsonLib α) (obi : Bytes → Option (Parsed α)) (shift : UInt8) (text : Bytes) :
+    Option (List (Record α)) :=
+  match parseFastq shift true text with
+  | .ok rs => rs.mapM (readRecG J obi)
   | .error _ => none
 
 end ObiVerif.Header
